@@ -23,14 +23,17 @@ MCShapesQuick == {S_all, S_m1, S_db, S_pred, S_two, S_two2}
 MCShapesThorough == {S_all, S_m1, S_db, S_rp, S_pred, S_two, S_two2, S_other}
 MCShapesKnown == {S_two}
 MCShapesDead == {S_all, S_m1, S_two, S_pred}
-MCShapesDeep == MCShapesThorough \cup {S_three}
+S_absent  == Sh(<<A>>, <<F("", "", "", "?b"), F("m1", "", "", "a")>>)                     \* !isPresent("tag") OR "tag" == 'b'
+MCShapesDeep == MCShapesThorough \cup {S_three, S_absent}
 MCShapesThree == {S_m1, S_two, S_db, S_other}
 
 W1(dbrp, m, tag) == [db |-> dbrp.db, rp |-> dbrp.rp, pts |-> <<[meas |-> m, tag |-> tag]>>]
 MCBatchesQuick ==
     { W1(A, "m1", "a"), W1(A, "m2", "b"), W1(B, "m1", "b"), W1(B, "m2", "a") }
+MCBatchesDeep ==
+    { W1(A, "m1", "a"), W1(A, "m1", ""), W1(A, "m2", "b"), W1(B, "m1", "b") }
 MCBatchesThorough ==
-    { W1(A, "m1", "a"), W1(A, "m2", "b"), W1(A, "m1", "b"), W1(B, "m1", "b"), W1(B, "m2", "a"),
+    { W1(A, "m1", "a"), W1(A, "m2", "b"), W1(A, "m1", ""), W1(B, "m1", "b"), W1(B, "m2", "a"),
       [db |-> "d1", rp |-> "", pts |-> <<[meas |-> "m2", tag |-> "a"], [meas |-> "m1", tag |-> "a"]>>] }
 
 MCSymmetry == Permutations(TaskIds)
